@@ -14,7 +14,10 @@ unknown name, -s/--follow-sub, -a/--all, --disable-default/--enable-default), ea
     1-3 tasks / sub-tasks named on the command line), --continue or not, -a/--always-execute or not,
     `-n 2 -P thread` (with --continue only).  A step may also have NO command (`none`): two runs in a row.
     Every seed also gets, per backend, the histories  run; ignore T; run -a; run -a <dependents of T>; run;
-    forget T; run  for T a plain task, a group (its sub-tasks) and a setup-task.
+    forget T; run  for T a plain task, a group (its sub-tasks) and a setup-task; and the histories
+    run; ignore T; <T made not up-to-date>; reset-dep [T | no argument]; run; forget T; run  for each of the four ways a task
+    is not up-to-date (never executed, a file_dep changed, a target missing, an uptodate item false), for a group (all three
+    of its tasks processed at once) and -- the documented exception -- under a changed checker.
 Model side (inside Coq): Commands.forget / ignore_cmd / resetdep_cmd on the task table READ FROM THE
 REAL Task OBJECTS the loader returned (name, task_dep, setup_tasks, calc_dep, subtask_of, file_dep,
 targets; uptodate items come from the spec), then Commands.next_run (Runner.run_serial with the selection and
@@ -36,7 +39,14 @@ Encoding (Commands.observe_cmd; both sides the same list of ints):
 Task ids = position in the loader's list; unknown names = 50, 51; the stale record = number of tasks.
 mtimes are harness-clock numbers (BASE subtracted); digests/contents are ids of 5 fixed byte strings.
 
-Independent oracle (no use of the model; only the spec and what was observed), see `oracle`.
+Independent oracle (no use of the model; only the spec and what was observed), see `oracle`, `ignore_oracle` and
+`update_held`: besides the per-command rules, the check keeps, from the COMMANDS GIVEN (not from the 'ignore:' key), the set of
+tasks that were ignored and not forgotten since ("until forgotten"); each of them must still carry the mark after every
+later command and must be reported skip-ignore -- never executed -- by every later run, and so must every task depending
+on one.  The one way other than `forget` a task leaves that set: `reset-dep` "processed" it while its record was written by
+a checker OTHER than the configured one (the whole record, mark included, is dropped with the foreign state -- dependency.py
+get_status 680-689 / save_success).  With the recorded checker equal to the configured one, or with no checker recorded
+(a record that holds only the mark), reset-dep keeps the mark whatever it reports (failed / skip / processed).
 """
 import hashlib, io, json, os, sys
 import common
@@ -519,6 +529,56 @@ def reached(run_table, sel):
     return seen
 
 
+def forget_set(spec, defs, a, names, allrec):
+    """the documented selection of `forget` -> (records that go, names that are no task)"""
+    known = set(names)
+    unknown = [n for n in a['names'] if n not in known]
+    if a['all']:
+        return set(allrec), unknown
+    if not a['names'] and a['dd']:
+        return set(), unknown
+    sel = a['names'] or spec['default']
+    if sel is None:
+        sel = list(names)
+    unknown = [n for n in sel if n not in known]
+    exp = set()
+    if not unknown:
+        work = []
+        for n in sel:
+            work += [n] + subs_of(spec, n)
+        exp = set(work)
+        if a['sub']:
+            while work:
+                x = work.pop()
+                for y in declared(spec, defs, x):
+                    if y not in exp:
+                        exp.add(y)
+                        work.append(y)
+    return exp, unknown
+
+
+def resetdep_sel(spec, a, names):
+    """tasks reset-dep goes through: the named ones each with its sub-tasks, or every task"""
+    sel = []
+    for n in (a['names'] or names):
+        sel += [n] + (subs_of(spec, n) if a['names'] else [])
+    return sel
+
+
+def verdicts(lines):
+    """parsed lines [id, code, id, code ...] -> {id: [codes]}"""
+    v = {}
+    for i in range(0, len(lines), 2):
+        v.setdefault(lines[i], []).append(lines[i + 1])
+    return v
+
+
+def mark_kept_by_resetdep(w, b):
+    """does a record [b] (dump before the command) keep its ignore mark when reset-dep processes the task?  yes when the
+    checker recorded in it is the configured one or when no checker is recorded (0: the record holds only the mark)"""
+    return b is not None and b['ck'] in (0, 1 if w.ck == 'md5' else 2)
+
+
 def oracle(out, w, spec, step, names, stale, before, after, code, lines, acts, follow, run_table, dangling, case, ro=None, frc=0, rsel=()):
     """documented effect, computed from the spec only"""
     ro = ro or run_opts(step)
@@ -541,28 +601,7 @@ def oracle(out, w, spec, step, names, stale, before, after, code, lines, acts, f
         return
     if cmd == 'forget':
         form_no_default = (not a['names'] and spec['default'] is None and not a['all'] and not a['dd'])
-        if a['all']:
-            exp = set(allrec)
-        elif not a['names'] and a['dd']:
-            exp = set()
-        else:
-            sel = a['names'] or spec['default']
-            if sel is None:
-                sel = list(names)
-            unknown = [n for n in sel if n not in known]
-            exp = set()
-            if not unknown:
-                work = []
-                for n in sel:
-                    work += [n] + subs_of(spec, n)
-                exp = set(work)
-                if a['sub']:
-                    while work:
-                        x = work.pop()
-                        for y in declared(spec, defs, x):
-                            if y not in exp:
-                                exp.add(y)
-                                work.append(y)
+        exp, unknown = forget_set(spec, defs, a, names, allrec)
         if code >= 97 and code < 100:
             viol('forget crashed (exit 3 with a traceback)', 'forget-no-args-no-default' if form_no_default else 'forget-crash')
             return
@@ -615,12 +654,8 @@ def oracle(out, w, spec, step, names, stale, before, after, code, lines, acts, f
             if code < 100 or not unchanged:
                 viol('reset-dep of an unknown task must be refused and leave the DB alone', 'resetdep-unknown-name')
             return
-        sel = []
-        for n in (a['names'] or names):
-            sel += [n] + (subs_of(spec, n) if a['names'] else [])
-        verdict = {}
-        for i in range(0, len(lines), 2):
-            verdict.setdefault(lines[i], []).append(lines[i + 1])
+        sel = resetdep_sel(spec, a, names)
+        verdict = verdicts(lines)
         ids = {n: i for i, n in enumerate(names)}
         reset_ok = set()
         for n in allrec:
@@ -652,7 +687,11 @@ def oracle(out, w, spec, step, names, stale, before, after, code, lines, acts, f
             for f in d['file_dep']:
                 m, s, c = w.fsview[f]
                 want_saved[f] = ['md5', m, s, c] if w.ck == 'md5' else ['ts', m]
-            keep = (b is not None and b['ck'] in (0, ckz))       # 0: a record without 'checker:' (only the ignore mark) is not dropped
+            keep = mark_kept_by_resetdep(w, b)
+            if keep and b['ignore'] and not (r and r['ignore']):
+                viol('reset-dep processed the ignored task %s (record written by the configured checker, or holding only the mark) and the '
+                     'ignore mark is gone: the task was not forgotten' % n, 'resetdep-dropped-ignore-mark')
+                return
             if (r is None or r['deps'] != sorted(d['file_dep']) or r['ck'] != ckz
                     or any(r['saved'].get(f) != st for f, st in want_saved.items())
                     or r['values'] != (b['values'] if b else {}) or r['result'] != (b['result'] if b else None)
@@ -666,30 +705,74 @@ def oracle(out, w, spec, step, names, stale, before, after, code, lines, acts, f
                     return
 
 
-def ignore_oracle(out, w, run_table, after, follow, names, case):
-    """on every run: an ignored task, and every task that depends on one, is not executed"""
+def update_held(out, held, w, spec, step, names, stale, before, after, code, lines, case):
+    """[held]: the tasks an `ignore` of this history marked and no command took out of that state since -- kept from the
+    COMMANDS GIVEN and the answer they wrote, never from the 'ignore:' key.  A task leaves the set when a `forget` covers it,
+    or when reset-dep "processed" it while its record was written by another checker than the configured one (the record is
+    dropped as a whole; see the module text).  Every task of the set must still carry the mark.  -> what happened, for counting"""
+    cmd, a = step['cmd'], step['margs']
+    seen = []
+    if code == 0:
+        if cmd == 'ignore' and a['names'] and all(n in names for n in a['names']):
+            for n in a['names']:
+                held |= {n} | set(subs_of(spec, n))
+        elif cmd == 'forget':
+            exp, _ = forget_set(spec, w.defs, a, names, names + stale)
+            held -= exp
+        elif cmd == 'reset-dep':
+            v = verdicts(lines)
+            ids = {n: i for i, n in enumerate(names)}
+            for n in resetdep_sel(spec, a, names):
+                if n in held and 2 in v.get(ids[n], []):
+                    if mark_kept_by_resetdep(w, before[n]):
+                        seen.append('reset-dep-processed-ignored-task')
+                    else:
+                        seen.append('reset-dep-processed-ignored-task-foreign-checker')
+                        held.discard(n)
+    for n in sorted(held):
+        if not (after.get(n) and after[n]['ignore']):
+            out.violations.append(dict(what='task %s was ignored and never forgotten, but after `%s %s` its ignore mark is gone'
+                                            % (n, cmd, ' '.join(cmd_args(step))), shape='ignore-mark-lost-before-forget', case=case))
+            break
+    return seen
+
+
+def ignore_oracle(out, w, run_table, after, follow, names, case, held=()):
+    """on every run: an ignored task, and every task that depends on one, is not executed.  Ignored = carries the mark in the
+    DB; and, second, = was ignored by a command of this history and not forgotten since ([held], see update_held)"""
     if run_table is None or follow is None:
         return
-    hard, memo = {}, {}
+    db_marked = {n for n in names if after.get(n) and after[n]['ignore']}
+    if ignore_rule(out, run_table, db_marked, follow, names, case, 'is ignored',
+                   'ignored-task-or-dependent-executed', 'setup-task-ignored-task-executed'):
+        return
+    if set(held) - db_marked:
+        ignore_rule(out, run_table, db_marked | set(held), follow, names, case, 'was ignored and never forgotten',
+                    'not-forgotten-ignored-task-or-dependent-executed', 'setup-task-not-forgotten-ignored-task-executed')
+
+
+def ignore_rule(out, run_table, marked, follow, names, case, how, shape_dep, shape_setup):
+    memo = {}
 
     def is_hard(n, seen=()):
         if n in memo:
             return memo[n]
         if n in seen or n not in run_table:
             return False
-        r = bool(after.get(n) and after[n]['ignore']) or any(is_hard(x, seen + (n,)) for x in run_table[n]['task_dep'] + run_table[n]['calc_dep'])
+        r = n in marked or any(is_hard(x, seen + (n,)) for x in run_table[n]['task_dep'] + run_table[n]['calc_dep'])
         memo[n] = r
         return r
     for n in names:
         if is_hard(n):
             if follow[n] & 1 or (follow[n] and not follow[n] & 4):
-                out.violations.append(dict(what='task %s is ignored or depends on an ignored task but the run reported %d' % (n, follow[n]),
-                                           shape='ignored-task-or-dependent-executed', case=case))
-                return
+                out.violations.append(dict(what='task %s %s, or depends on such a task, but the run reported %d' % (n, how, follow[n]),
+                                           shape=shape_dep, case=case))
+                return True
         elif any(is_hard(x) for x in run_table[n]['setup']) and follow[n] & 1:
-            out.violations.append(dict(what='task %s was executed although its setup-task is ignored' % n,
-                                       shape='setup-task-ignored-task-executed', case=case))
-            return
+            out.violations.append(dict(what='task %s was executed although its setup-task %s' % (n, how),
+                                       shape=shape_setup, case=case))
+            return True
+    return False
 
 
 def excused(w, spec, run_table, after, n, _):
@@ -757,6 +840,7 @@ def run_case(ctx, out, spec, idx, cases):
     """-> list of per-step summaries"""
     w = World(ctx, spec, 'c%d' % idx)
     summ = []
+    held = set()                                   # ignored by a command of this history, not forgotten since (update_held)
     # pre-state: a real run (the stale task exists only here)
     w.with_old = spec['stale']
     w.fail = set(spec['pre']['fail'])
@@ -815,11 +899,12 @@ def run_case(ctx, out, spec, idx, cases):
                                     default_tasks=spec['default'], order=order,
                                     next_run=(list(ro['flags']) + sel) if follow is not None else None)))
         oracle(out, w, spec, step, order, stale, before, after, code, lines, acts, follow, run_table, dangling, case, ro, frc, sel)
-        ignore_oracle(out, w, run_table, after, follow, order, case)
+        seen = update_held(out, held, w, spec, step, order, stale, before, after, code, lines, case)
+        ignore_oracle(out, w, run_table, after, follow, order, case, held)
         changed = sorted(n for n in allrec if after[n] != before[n])
         summ.append(dict(cmd=step['cmd'], args=cmd_args(step), code=code, changed=changed, follow=follow, rc=frc, dangling=dangling,
                          ntasks=len(order), default=spec['default'], run=ro, run_args=list(ro['flags']) + sel,
-                         marked=sorted(n for n in order if after[n] and after[n]['ignore'])))
+                         marked=sorted(n for n in order if after[n] and after[n]['ignore']), held=sorted(held), seen=seen))
     return summ
 
 
@@ -1055,6 +1140,22 @@ def fixed_specs():
                                                           ('setdef', 'c', 'uptodate', [['call', False]])]),
                         st('reset-dep', mut=[('checker', 'md5'), ('delete', 4)])], b),
         ]
+        # run; ignore T; <T made not up-to-date>; reset-dep [T | no argument]; run; forget T; run   (T = b: a, g:y and g depend
+        # on it).  The mark is in the record reset-dep rewrites: it has to be there afterwards, b and its dependents are
+        # skipped by the run, and only `forget b` ends that.
+        ways = [((), ['b']),                                          # never executed with success: no record but the mark
+                ([('write', 0, 2)], ()),                              # a file_dep changed
+                ([('setdef', 'b', 'targets', [5])], ()),              # a target is missing (stays so: not up-to-date afterwards either)
+                ([('setdef', 'b', 'uptodate', [['bool', False]])], ())]   # an uptodate item is false
+        for mut, fail in ways:
+            for names, run in ((['b'], R()), ([], R(always=True))):
+                out.append(base(None, [st('ignore', ['b']), st('reset-dep', names, mut=mut, run=run), st('forget', ['b'])], b, fail=fail))
+        # T a group: g, g:x (file_dep changed) and g:y (target missing) are processed by one reset-dep
+        out.append(base(None, [st('ignore', ['g']), st('reset-dep', ['g'], mut=[('write', 1, 0), ('delete', 4)]), st('forget', ['g'])], b))
+        # the exception: the record of b was written by the md5 checker and reset-dep runs under the timestamp checker -- the
+        # record is dropped with the mark; but a record that holds only the mark (no checker recorded) keeps it
+        out.append(base(None, [st('ignore', ['b']), st('reset-dep', ['b'], mut=[('checker', 'timestamp')]), st('forget', ['b'])], b))
+        out.append(base(None, [st('ignore', ['b']), st('reset-dep', ['b'], mut=[('checker', 'timestamp')]), st('forget', ['b'])], b, fail=['b']))
     return out
 
 
@@ -1072,9 +1173,10 @@ def key_of(s):
 
 def run(ctx):
     out = Outcome()
-    out.rule = ('22 fixed command sequences x 3 backends on the table of the statement (every argument form of the three commands; the '
+    out.rule = ('33 fixed command sequences x 3 backends on the table of the statement (every argument form of the three commands; the '
                 'histories run, ignore T, run -a, run -a <dependents>, run, forget T, run for T plain / group / setup-task, serial and '
-                '-n 2 -P thread) + random dodo namespaces (2-5 creators, groups with 1-3 sub-tasks, task_dep/setup/calc_dep/implicit deps, uptodate items, default_tasks '
+                '-n 2 -P thread; the histories run, ignore T, <T not up-to-date: never executed | file_dep changed | target missing | '
+                'uptodate false>, reset-dep [T | no argument], run, forget T, run, also for a group and under a changed checker) + random dodo namespaces (2-5 creators, groups with 1-3 sub-tasks, task_dep/setup/calc_dep/implicit deps, uptodate items, default_tasks '
                 'absent/list/empty/unknown, stale record, DB options in DOIT_CONFIG or on the command line) x DB pre-state from a real run + '
                 'file/definition/checker changes x 1-4 steps (a command application, or none) x backend, each followed by a recorded run with '
                 'options from the PRNG (named selection, --continue or not, --always-execute or not, -n 2 -P thread).  one evaluation = one '
@@ -1098,6 +1200,10 @@ def run(ctx):
             out.count('outcome-%d' % (s['code'] if s['code'] < 100 else 100))
             if s['dangling']:
                 out.count('dangling-dep')
+            for k in s['seen']:
+                out.count(k)
+            if s['held']:
+                out.count('step-with-task-ignored-and-not-forgotten')
             if s['follow'] is not None:
                 out.count('with-following-run')
                 ro = s['run']
@@ -1139,7 +1245,7 @@ def replay(ctx, payload):
     cases = []
     summ = run_case(ctx, out, spec, 0, cases)
     for s in summ:
-        print(s['cmd'], s['args'], 'outcome', s['code'], 'changed', s['changed'], 'ignore-marked', s['marked'],
+        print(s['cmd'], s['args'], 'outcome', s['code'], 'changed', s['changed'], 'ignore-marked', s['marked'], 'ignored-not-forgotten', s['held'],
               'next run', s['run_args'], '->', s['follow'], 'exit', s['rc'])
     for v in out.violations:
         print('VIOLATION-REPLAY', v['shape'], v['what'])
